@@ -94,14 +94,14 @@ theorem parse_printSchemaT_layer1 (o : SdlPrintT.OptsT) (s : SchemaD) (hs : InPr
     (hwf : printTextWF o s = true) (hp : NoDescNoDefault s) :
     parseSdlTextT (SdlPrintT.printSchemaT o s) = docToAst (schemaToDoc s) := by
   simp only [printTextWF, Bool.and_eq_true, List.all_eq_true, Bool.or_eq_true, Bool.not_eq_true', List.isEmpty_eq_false_iff] at hwf
-  obtain ⟨⟨⟨⟨⟨⟨⟨⟨_, hind0⟩, htypes⟩, hdirs⟩, hq⟩, hm⟩, hsub⟩, hnonempty⟩, hblock⟩ := hwf
+  obtain ⟨⟨⟨⟨⟨⟨⟨_, hind0⟩, htypes⟩, hdirs⟩, hq⟩, hm⟩, hsub⟩, hnonempty⟩ := hwf
   have hind : Blank o.indent := by
     intro c hc; have := hind0 c hc; simpa using this
   have hrootsne : needsSchemaBlock s = true → rootOps s ≠ [] := by
     intro hn hro
-    rcases hblock with h | h
-    · rw [hn] at h; cases h
-    · exact h hro
+    unfold needsSchemaBlock at hn
+    unfold rootOps at hro
+    cases hq' : s.query <;> cases hm' : s.mutation <;> cases hs' : s.subscription <;> simp [hq', hm', hs'] at hn hro
   apply parse_printSchemaT o s hs
   · -- the text is not empty
     unfold schemaPairs
